@@ -24,3 +24,4 @@ void h_url_free(void) { nng_url *u; VP_HAVOC_GHOSTS(); nng_url_free(u); VP_CANAR
 void h_parse_inline(void) { nng_url *u; char *raw; VP_HAVOC_GHOSTS(); nni_url_parse_inline(u, raw); VP_CANARY(); }
 void h_url_parse(void) { nng_url **up; char *raw; VP_HAVOC_GHOSTS(); nng_url_parse(up, raw); VP_CANARY(); }
 void h_resolve_port(void) { nng_url *u; uint32_t p; VP_HAVOC_GHOSTS(); nng_url_resolve_port(u, p); VP_CANARY(); }
+void h_default_port(void) { char *sch; VP_HAVOC_GHOSTS(); vp_tables_init(); nni_url_default_port(sch); VP_CANARY(); }
